@@ -39,9 +39,10 @@ def handlePeriodic (op : String) (j : Json) : Option (Except String Json) :=
     let fix (b : List Int) : List Int := if raw then dropEarly b tp0 else b
     let periods0 ← field j "periods" getInts
     let periods := fix periods0
+    let gridEnd ← field j "end" getInt
     let durations := match (← fieldOpt j "durations" getInts) with
       | some d => fix d
-      | none => fix (wholeDuration pts)
+      | none => fix (wholeDuration pts gridEnd)
     pure (Json.mkObj [("labels", jList jLabel (stepLabels pts periods durations)),
       ("periods", jList jInt periods), ("durations", jList jInt durations),
       ("equal_spacing", Json.bool (equalSpacing periods))])
